@@ -419,11 +419,12 @@ Section Safe.
     destruct (map_out f l); simpl; congruence.
   Qed.
 
-  Lemma apply_strategy_ok call wpkg h t x :
-    call_ok call -> read_type_ok pe to_dir h t = true -> has_ty e x t ->
-    apply_strategy e zf U call wpkg to_dir h x <> Panic.
+  Lemma apply_strategy_ok call wpkg mh self h t x :
+    call_ok call -> read_type_ok pe to_dir h t = true -> func_ok mh h = true -> has_ty e x t ->
+    apply_strategy e zf U call wpkg to_dir (mapper_nil mh self) h x <> Panic.
   Proof.
-    intros C R T. destruct h as [| a b | f | sp dp sn dn | sp dp sn dn]; simpl; try discriminate.
+    intros C R FO T. destruct h as [| a b | f | sp dp sn dn | sp dp sn dn]; simpl; try discriminate.
+    - destruct mh; [discriminate|]. simpl. discriminate.
     - (* SMap *)
       simpl in R. apply andb_true_iff in R. destruct R as (R1 & R2). apply ty_eqb_eq in R1.
       destruct (find_plans pe sn) as [tp|] eqn:F; [|discriminate]. apply String.eqb_eq in R2.
@@ -515,17 +516,18 @@ Section Safe.
       - intros h Ih G. apply (AL h Ih). apply (set_path_frame _ _ _ _ S h); auto.
     Qed.
 
-    Lemma stmts_ok call wpkg racc wacc rk :
+    Lemma stmts_ok call wpkg mh racc wacc rk :
       call_ok call -> typed_fields e rk rfs ->
       forall ss w A,
         NPw w -> ALw w A -> (forall h, In h A -> In h (map fst whops)) ->
-        forallb (stmt_ok pe to_dir rls wls whops A) ss = true ->
-        eval_stmts e zf U call wpkg to_dir racc wacc (VStruct rk) w ss <> Panic.
+        forallb (stmt_ok pe to_dir mh rls wls whops A) ss = true ->
+        eval_stmts e zf U call wpkg to_dir mh racc wacc (VStruct rk) w ss <> Panic.
     Proof.
       intros C T. induction ss as [|s ss IH]; intros w A NP AL AW SS; simpl; [discriminate|].
       simpl in SS. apply andb_true_iff in SS. destruct SS as (S1 & S2).
       unfold stmt_ok in S1.
       apply andb_true_iff in S1. destruct S1 as (S1 & S3).
+      apply andb_true_iff in S1. destruct S1 as (S1 & FO).
       apply andb_true_iff in S1. destruct S1 as (Ra & Wa).
       apply negb_true_iff in Ra. apply negb_true_iff in Wa.
       destruct (find_leaf rls (r_path (st_src s))) as [rl|] eqn:Fr; [|discriminate].
@@ -543,8 +545,8 @@ Section Safe.
       destruct (leaf_read e Eok zf rfs rk rl T Nr Irl) as (x & Gx & Tx).
       { intros h Ih. apply (G2 eq_refl). left. rewrite S3. exact Ih. }
       rewrite <- Prl, Gx. simpl.
-      pose proof (apply_strategy_ok call wpkg (st_how s) (rl_ty rl) x C Hrt Tx) as AS.
-      destruct (apply_strategy e zf U call wpkg to_dir (st_how s) x) as [o| |]; simpl; try congruence.
+      pose proof (apply_strategy_ok call wpkg mh (if to_dir then VStruct rk else w) (st_how s) (rl_ty rl) x C Hrt FO Tx) as AS.
+      destruct (apply_strategy e zf U call wpkg to_dir (mapper_nil mh (if to_dir then VStruct rk else w)) (st_how s) x) as [o| |]; simpl; try congruence.
       destruct o as [y|]; [|apply (IH w A); auto].
       unfold write_ref. rewrite Wa. rewrite <- Pwl.
       assert (WO : set_path w (rl_path wl) y <> Panic).
@@ -640,8 +642,8 @@ Section Main.
   Proof. unfold plans_safe in SAFE. apply andb_true_iff in SAFE. tauto. Qed.
 
   Lemma safe_plan tp : In tp pe ->
-    plan_safe e zf pe true (decl_fields e PSrc (tp_src tp)) (decl_fields e PDst (tp_dst tp)) (tp_to tp) = true
-    /\ plan_safe e zf pe false (decl_fields e PDst (tp_dst tp)) (decl_fields e PSrc (tp_src tp)) (tp_from tp) = true
+    plan_safe e zf pe true (tp_mapper_hop tp) (decl_fields e PSrc (tp_src tp)) (decl_fields e PDst (tp_dst tp)) (tp_to tp) = true
+    /\ plan_safe e zf pe false (tp_mapper_hop tp) (decl_fields e PDst (tp_dst tp)) (decl_fields e PSrc (tp_src tp)) (tp_from tp) = true
     /\ (exists fs, lookup_decl e PSrc (tp_src tp) = Some (DStruct fs))
     /\ (exists fs, lookup_decl e PDst (tp_dst tp) = Some (DStruct fs))
     /\ zero_wf e zf (TNamed PSrc (tp_src tp)) = true /\ zero_wf e zf (TNamed PDst (tp_dst tp)) = true.
@@ -657,23 +659,24 @@ Section Main.
 
   (* one generated method body, given a well-behaved recursive call: rfs/wfs are
      the declarations of the struct read / written *)
-  Lemma body_ok to_dir call wpkg racc wacc wpm sn rp rn wp wn rfs wfs pl s manual :
+  Lemma body_ok to_dir call wpkg mh racc wacc wpm sn rp rn wp wn rfs wfs pl s manual :
     call_ok e pe to_dir call ->
     lookup_decl e rp rn = Some (DStruct rfs) -> lookup_decl e wp wn = Some (DStruct wfs) ->
     zero_wf e zf (TNamed wp wn) = true ->
-    plan_safe e zf pe to_dir rfs wfs pl = true ->
+    plan_safe e zf pe to_dir mh rfs wfs pl = true ->
     has_ty e s (TNamed rp rn) ->
     bind (match pl_ctor pl with
           | Some args => bind (eval_alloc e zf (zero_val e zf (TNamed wp wn)) wpm)
                               (fun w0 => eval_ctor e zf U sn racc wpm s w0 args)
           | None => eval_alloc e zf (zero_val e zf (TNamed wp wn)) (pl_alloc pl)
           end)
-         (fun d1 => bind (eval_stmts e zf U call wpkg to_dir racc wacc s d1 (pl_stmts pl))
+         (fun d1 => bind (eval_stmts e zf U call wpkg to_dir mh racc wacc s d1 (pl_stmts pl))
                          (fun d2 => Ok (VPtr (manual d2)))) <> Panic.
   Proof.
     intros C Lr Lw ZW PS Ts. pose proof safe_env as Eok.
     unfold plan_safe in PS. destruct (pl_ctor pl); [discriminate|].
-    apply andb_true_iff in PS. destruct PS as (PS & P3). apply andb_true_iff in PS. destruct PS as (P1 & P2).
+    apply andb_true_iff in PS. destruct PS as (PS & P3). apply andb_true_iff in PS. destruct PS as (PS & P2).
+    apply andb_true_iff in PS. destruct PS as (_ & P1).
     destruct (has_ty_struct _ _ _ _ _ Ts Lr) as (rk & -> & Tr).
     destruct (has_ty_struct _ _ _ _ _ (zero_typed e zf _ ZW) Lw) as (dk & Ez & Td). rewrite Ez.
     pose proof (env_ok_lookup _ _ _ _ Eok Lr) as Nr. pose proof (env_ok_lookup _ _ _ _ Eok Lw) as Nw.
@@ -681,8 +684,8 @@ Section Main.
     { intros h []. }
     destruct (eval_alloc e zf (VStruct dk) (pl_alloc pl)) as [d1| |] eqn:EA; simpl; try congruence.
     destruct (A2 d1 eq_refl) as (k1 & -> & T1 & AL1). rewrite app_nil_r in AL1.
-    assert (SO : eval_stmts e zf U call wpkg to_dir racc wacc (VStruct rk) (VStruct k1) (pl_stmts pl) <> Panic).
-    { apply (stmts_ok e zf U pe Eok to_dir rfs wfs Nr call wpkg racc wacc rk C Tr (pl_stmts pl) (VStruct k1) (map fst (pl_alloc pl))); auto.
+    assert (SO : eval_stmts e zf U call wpkg to_dir mh racc wacc (VStruct rk) (VStruct k1) (pl_stmts pl) <> Panic).
+    { apply (stmts_ok e zf U pe Eok to_dir rfs wfs Nr call wpkg mh racc wacc rk C Tr (pl_stmts pl) (VStruct k1) (map fst (pl_alloc pl))); auto.
       - intros l Il q r E R G. eapply (leaf_nils e Eok zf wfs k1 l T1 Nw Il); eauto.
       - (* allocated paths are embedded-pointer positions *)
         clear - P1. revert P1. generalize (@nil path). induction (pl_alloc pl) as [|[p t] al IH]; intros done P1 h Ih; [contradiction|].
@@ -691,7 +694,7 @@ Section Main.
         apply existsb_exists in P1. destruct P1 as ((p0, t0) & I0 & E0). simpl in E0.
         apply andb_true_iff in E0. destruct E0 as (E1 & _). apply path_eqb_eq in E1. subst p0.
         apply in_map_iff. exists (p, t0). auto. }
-    destruct (eval_stmts e zf U call wpkg to_dir racc wacc (VStruct rk) (VStruct k1) (pl_stmts pl)); simpl; congruence.
+    destruct (eval_stmts e zf U call wpkg to_dir mh racc wacc (VStruct rk) (VStruct k1) (pl_stmts pl)); simpl; congruence.
   Qed.
 
   (* C09: ToX never panics, for every well-typed receiver (any nil pattern) and any recursion depth *)
@@ -704,7 +707,8 @@ Section Main.
     destruct (safe_plan tp Itp) as (P1 & _ & (rfs & Lr) & (wfs & Lw) & _ & ZW).
     destruct (has_ty_ptr _ _ _ T) as [->|(s & -> & Ts)]; [discriminate|].
     unfold decl_fields in P1. rewrite Lr, Lw in P1. rewrite <- Etn in Ts.
-    apply (body_ok true (eval_to e zf U pe fuel) PDst (tp_src_acc tp) (tp_dst_acc tp) (tp_dst_ptr tp) false PSrc (tp_src tp) PDst (tp_dst tp)
+    apply (body_ok true (eval_to e zf U pe fuel) PDst (tp_mapper_hop tp) (tp_src_acc tp) (tp_dst_acc tp) (tp_dst_ptr tp)
+                   (mapper_nil (tp_mapper_hop tp) s) PSrc (tp_src tp) PDst (tp_dst tp)
                    rfs wfs (tp_to tp) s (fun d2 => if pl_manual (tp_to tp) then u_manual_to U tn s d2 else d2)); auto.
     intros sn tp' y F' Ty. split.
     - apply IH. exact Ty.
@@ -725,11 +729,17 @@ Section Main.
     destruct (safe_plan tp Itp) as (_ & P2 & (rfs & Lr) & (wfs & Lw) & ZW & _).
     destruct (has_ty_ptr _ _ _ T) as [->|(d & -> & Td)]; [discriminate|].
     unfold decl_fields in P2. rewrite Lr, Lw in P2.
-    assert (Z : match recv with VNil => zero_val e zf (TNamed PSrc (tp_src tp)) | _ => zero_val e zf (TNamed PSrc (tp_src tp)) end
-                = zero_val e zf (TNamed PSrc (tp_src tp))) by (destruct recv; reflexivity).
+    assert (PR : pl_reset (tp_from tp) = true).
+    { unfold plan_safe in P2. destruct (pl_ctor (tp_from tp)); [discriminate|].
+      repeat (apply andb_true_iff in P2; destruct P2 as (P2 & _)). exact P2. }
+    assert (Z : match recv with
+                | VPtr c => if pl_reset (tp_from tp) then zero_val e zf (TNamed PSrc (tp_src tp)) else c
+                | _ => zero_val e zf (TNamed PSrc (tp_src tp)) end
+                = zero_val e zf (TNamed PSrc (tp_src tp))) by (rewrite PR; destruct recv; reflexivity).
     rewrite Z.
-    apply (body_ok false (fun n y => eval_from e zf U pe fuel n VNil y) PSrc (tp_dst_acc tp) (tp_src_acc tp) (tp_src_ptr tp)
-                   (match recv with VNil => true | _ => false end) PDst (tp_dst tp) PSrc (tp_src tp) wfs rfs (tp_from tp) d
+    apply (body_ok false (fun n y => eval_from e zf U pe fuel n VNil y) PSrc (tp_mapper_hop tp) (tp_dst_acc tp) (tp_src_acc tp) (tp_src_ptr tp)
+                   (match recv with VNil => true | VPtr c => mapper_nil (tp_mapper_hop tp) c | _ => false end)
+                   PDst (tp_dst tp) PSrc (tp_src tp) wfs rfs (tp_from tp) d
                    (fun s2 => if pl_manual (tp_from tp) then u_manual_from U tn d s2 else s2)); auto.
     intros sn tp' y F' Ty. split.
     - eapply IH; eauto.
@@ -750,24 +760,31 @@ Lemma eval_from_nil e zf U pe fuel tn tp recv :
   find_plans pe tn = Some tp -> eval_from e zf U pe (S fuel) tn recv VNil = Ok VNil.
 Proof. intros F. simpl. rewrite F. reflexivity. Qed.
 
-(* FromX does not look at the CONTENT of its receiver ... *)
-Lemma eval_from_receiver e zf U pe fuel tn recv recv' arg :
+(* FromX resets its receiver before anything is written ([pl_reset], the
+   unconditional `*s = S{}` of the template), so the result does not depend on
+   the receiver's previous CONTENT.  With a constructor the arguments are
+   evaluated BEFORE the reset, on the old receiver: a mapper method selected
+   through a pointer-embedded mapper looks at the old content, hence the side
+   condition ... *)
+Lemma eval_from_receiver e zf U pe fuel tn tp recv recv' arg :
+  find_plans pe tn = Some tp -> pl_reset (tp_from tp) = true ->
+  pl_ctor (tp_from tp) = None \/ tp_mapper_hop tp = None ->
   (recv = VNil <-> recv' = VNil) ->
   eval_from e zf U pe fuel tn recv arg = eval_from e zf U pe fuel tn recv' arg.
 Proof.
-  intros H. destruct fuel; simpl; auto. destruct (find_plans pe tn); auto. destruct arg; auto.
-  assert (E : match recv with VNil => true | _ => false end = match recv' with VNil => true | _ => false end).
-  { destruct recv, recv'; auto; destruct H as (H1 & H2); try (specialize (H1 eq_refl); discriminate);
-      try (specialize (H2 eq_refl); discriminate). }
-  rewrite E. destruct recv, recv'; reflexivity.
+  intros F R C H. destruct fuel; simpl; auto. rewrite F. destruct arg; auto. rewrite R.
+  destruct C as [C|C]; rewrite C.
+  - destruct recv, recv'; reflexivity.
+  - destruct recv, recv'; simpl; try reflexivity; destruct H as (H1 & H2);
+      try (specialize (H1 eq_refl); discriminate); try (specialize (H2 eq_refl); discriminate).
 Qed.
 
 (* ... and, when the source type has no constructor, not even at whether it is nil *)
 Lemma eval_from_receiver_plain e zf U pe fuel tn tp recv recv' arg :
-  find_plans pe tn = Some tp -> pl_ctor (tp_from tp) = None ->
+  find_plans pe tn = Some tp -> pl_reset (tp_from tp) = true -> pl_ctor (tp_from tp) = None ->
   eval_from e zf U pe fuel tn recv arg = eval_from e zf U pe fuel tn recv' arg.
 Proof.
-  intros F C. destruct fuel; simpl; auto. rewrite F. destruct arg; auto. rewrite C.
+  intros F R C. destruct fuel; simpl; auto. rewrite F. destruct arg; auto. rewrite C, R.
   destruct recv, recv'; reflexivity.
 Qed.
 
